@@ -214,7 +214,7 @@ def build_query(sc, order=True, distinct=True, bound=True):
     """Clause tokens joined by the scenario's separators (one or more blanks / tabs: spelling that must not matter)."""
     items = list(sc['items'])
     if sc.get('unnest_at') is not None:
-        items[sc['unnest_at']] = UNNEST_ITEM
+        items[sc['unnest_at']] = sc.get('unnest_expr') or UNNEST_ITEM
     toks = [KW('select')]
     b = sc.get('bound') if bound else None
     if b and b['form'] == 'top':
@@ -335,7 +335,13 @@ def model(sc, raw_rows):
 
 def gen_rows(rng, n, ragged=False):
     c1 = ['1', '2', '3', '10', '2', '1']
-    rows = [[rng.choice(c1), rng.choice(C2), rng.choice(C3)] for _ in range(n)]
+    c2 = C2
+    if rng.random() < 0.2:
+        # number-like strings and non-ASCII text (Basic Multilingual Plane only: there Python's code-point order and JavaScript's
+        # UTF-16 code-unit order agree), empty strings: to the engines these are just strings
+        c1 = c1 + [' 1', '1e3', '0x10', '-0', '1_000', '\u0663', '']
+        c2 = C2 + ['\u00e91', 'Zo\u00eb', '\u20ac', 'v 1', '', 'V1', 'v1 ']
+    rows = [[rng.choice(c1), rng.choice(c2), rng.choice(C3)] for _ in range(n)]
     if ragged:
         # short records: the missing fields read as None / null
         for r in rows:
@@ -406,6 +412,13 @@ def generate(rng, tier, idx):
     if rng.random() < 0.3:
         sc['kwcase'] = [rng.choice(['upper', 'lower', 'title', 'title', 'mixed', 'mixed2', 'asis']) for _ in range(rng.choice([1, 2, 3, 5]))]
     sc['engines'] = ['js'] if sc.get('js_only') else ['py', 'js']
+    if sc['unnest_at'] is not None and not sc.get('js_only') and rng.random() < 0.3:
+        # UNNEST over a list that is empty for some records (they contribute nothing to the output); the slice is spelt
+        # differently in the two languages, so such a scenario exercises one engine
+        if rng.random() < 0.5:
+            sc['engines'], sc['unnest_expr'] = ['py'], "UNNEST(a3.split(';')[1:])"
+        else:
+            sc['engines'], sc['unnest_expr'] = ['js'], "UNNEST(a3.split(';').slice(1))"
     # a quarter of the runs print through the real CSV writer (Python engine), which rewrites the records it receives in place
     sc['writer'] = 'csv' if rng.random() < 0.25 else 'list'
     if rng.random() < 0.12:
@@ -414,6 +427,7 @@ def generate(rng, tier, idx):
         sc['items'] = [key, rng.choice(['COUNT(*)', 'MAX(a1)', 'MIN(a2)', 'COUNT(1)'])]
         sc['group_by'] = key
         sc.pop('js_only', None)
+        sc.pop('unnest_expr', None)
         sc['engines'] = ['py', 'js']
         sc['unnest_at'] = None
         sc['distinct'] = None
@@ -523,6 +537,8 @@ def check_engine(sc, eng, counters, res, digest_parts):
             nontrivial = True
         if not buffering:
             pstar = pstar_of(full, n)
+            if pstar is not None:
+                pstar = needed_input(do, sc, lambda k: producer['rows'][:k], pstar, n)
             if pstar is not None and pstar < full['pulls']:
                 bump(counters, 'fault.bound_reached_with_input_left')
                 if b['pulls'] > pstar:
@@ -547,6 +563,7 @@ def check_engine(sc, eng, counters, res, digest_parts):
     if pstar is None:
         bump(counters, 'discard.bound_never_reached')
         return 'discard'
+    pstar = needed_input(do, sc, (lambda k: producer_prefix(producer, k)) if producer['type'] == 'endless' else (lambda k: producer['rows'][:k]), pstar, n)
     if producer['type'] == 'endless':
         run_prod = producer
         cap = min(L_CAP, pstar + 8)
@@ -580,6 +597,23 @@ def sort_key_of(sc, r):
 def same(a, b):
     # canonical JSON text, so that 8 and 8.0 (or 1 and True) are different
     return core.canon(a) == core.canon(b)
+
+
+def needed_input(do, sc, rows_of_prefix, pstar_trace, n):
+    """How many input records the first max(n, 1) output records need: the smallest k for which the unbounded query over the
+    first k input records already yields that many. The engine's own pull counter at its n-th write (pstar_trace) is only the
+    starting point: an engine that reads ahead would otherwise set its own allowance. Outputs per prefix length are monotone,
+    so the walk down stops at the first prefix that yields too few."""
+    need = max(n, 1)
+    k = pstar_trace
+    steps = 0
+    while k > 0 and steps < 6:
+        r = do(build_query(sc, bound=False), {'type': 'finite', 'rows': rows_of_prefix(k - 1)})
+        steps += 1
+        if r['outcome'] != ['ok'] or len(r['rows']) < need:
+            break
+        k -= 1
+    return k
 
 
 def pstar_of(ref, n):
